@@ -195,6 +195,16 @@ _ADDED79 = {
 for _pid, _txt in _ADDED79.items():
     if _pid in CHECKS:
         CHECKS[_pid]['level_claimed']['text'] += _txt
+
+# ---- rounds 10-11 (DESIGN.md 9.7)
+_ADDED1011 = {
+    'C09': " P10 runs on one class per dimension in the quick tier.",
+    'C16': " TrackedArray.__new__ is interpreted (argument checks it performs are seen by L6).",
+    'C17': " H6: every np.isclose / np.allclose a branch of the analysed code is decided on must be scale-invariant (operands dimensionless or atol == 0); a positive example is decided on every run.",
+}
+for _pid, _txt in _ADDED1011.items():
+    if _pid in CHECKS:
+        CHECKS[_pid]['level_claimed']['text'] += _txt
 _FORKS = (" Branches of the analysed code on tolerance predicates (np.isclose / np.allclose), on quantified predicates over symbolic data (np.any / np.all) "
           "and on size comparisons the size range does not decide are explored path by path (the job is re-run once per decision sequence; value rules are "
           "undetermined, never violated, on an outcome that pins the data).")
